@@ -6,6 +6,8 @@ tree is taken from the newest /tmp/mut/results-*.json produced by tools/eval_mut
 usage: tools/seed_mutants.py Cxx..."""
 import glob, json, os, shutil, subprocess, sys
 WT = "/tmp/wt/eval"
+ROOT = os.environ.get("MUT_ROOT", "/tmp/mut")
+TAG = os.environ.get("MUT_TAG", "")      # e.g. "r2-" for the second round
 def sh(cmd, **kw):
     return subprocess.run(cmd, shell=True, stdout=subprocess.PIPE, stderr=subprocess.STDOUT, text=True, **kw)
 head = sh("git -C /repo rev-parse HEAD").stdout.strip()
@@ -15,7 +17,7 @@ for rf in sorted(glob.glob("/tmp/mut/results-*.json")):
     for r in json.load(open(rf)):
         verdicts[r["mutant"]] = r
 for prop in sys.argv[1:]:
-    for diff in sorted(glob.glob("/tmp/mut/%s/m?.diff" % prop)):
+    for diff in sorted(glob.glob("%s/%s/m?.diff" % (ROOT, prop))):
         k = os.path.basename(diff)[:-5]
         demo = diff[:-5] + "_demo.py"
         orig_diff = diff
@@ -36,7 +38,7 @@ for prop in sys.argv[1:]:
               "| check rc=%s" % v.get("rc"))
         if not ok:
             continue
-        dst = "/verif/seeded/%s-%s" % (prop, k)
+        dst = "/verif/seeded/%s-%s%s" % (prop, TAG, k)
         os.makedirs(dst, exist_ok=True)
         shutil.copy(diff, dst + "/patch.diff")
         shutil.copy(demo, dst + "/demo.py")
